@@ -312,6 +312,42 @@ fn families() -> Vec<Family> {
             parsers: vec![("parse_digitally_signed_old", |i| mk(parse_digitally_signed_old(i), |s| format!("{:?}", conv::signed(s)), |o, s| visit::signed(o, s)))],
         },
         Family {
+            // SSLv2-compatible ClientHello bytes (15-bit record length): whatever the record parsers make of them, it is decided by the
+            // record alone; once the declared record is present, bytes behind it change neither value nor outcome
+            name: "sslv2-hello",
+            gen: |t| {
+                let mut e = Enc::new();
+                e.bytes(&gen_sslv2_hello(t).0);
+                e
+            },
+            declared: |b| if b.len() >= 2 && b[0] & 0x80 != 0 { Some(2 + (((b[0] & 0x7f) as usize) << 8 | b[1] as usize)) } else { None },
+            parsers: vec![
+                ("parse_tls_plaintext", |i| mk(parse_tls_plaintext(i), |p| format!("{:?} {:?}", hdr_fp(&p.hdr), conv::msgs(&p.msg)), |o, p| p.msg.iter().for_each(|m| visit::msg(o, m)))),
+                ("tls_parser_many", |i| mk(tls_parser_many(i), |v| format!("{:?}", v.iter().map(|p| (hdr_fp(&p.hdr), conv::msgs(&p.msg))).collect::<Vec<_>>()), |o, v| v.iter().for_each(|p| p.msg.iter().for_each(|m| visit::msg(o, m))))),
+            ],
+        },
+        Family {
+            // handshake bodies that delimit themselves, through their public body parsers
+            name: "certificate-body",
+            gen: |t| {
+                let mut e = Enc::new();
+                gen_hs_kind(t, 7, 300).encode_body(&mut e);
+                e
+            },
+            declared: |b| be(b, 0, 3).map(|l| 3 + l),
+            parsers: vec![("parse_tls_handshake_msg_certificate", |i| mk(parse_tls_handshake_msg_certificate(i), |m| format!("{:?}", conv::hs(m)), |o, m| visit::hs(o, m)))],
+        },
+        Family {
+            name: "certificate-status-body",
+            gen: |t| {
+                let mut e = Enc::new();
+                gen_hs_kind(t, 14, 300).encode_body(&mut e);
+                e
+            },
+            declared: |b| be(b, 1, 3).map(|l| 4 + l),
+            parsers: vec![("parse_tls_handshake_msg_certificatestatus", |i| mk(parse_tls_handshake_msg_certificatestatus(i), |m| format!("{:?}", conv::hs(m)), |o, m| visit::hs(o, m)))],
+        },
+        Family {
             // key-exchange content followed by a signature, through the composing parser, with the caller's `ext` flag both ways.
             // The signature is written in either form whatever the flag (a peer may send the other form), and half of the time its
             // first bytes are shaped so that the *other* reading declares a length close to what is available: a parser that picks
